@@ -5,7 +5,9 @@ EXTENDS Units, TLC
 VARIABLES stage, scn, out
 vars == <<stage, scn, out>>
 C == 3
-Containers == {"sample", "array", "partial"}       \* partial: the callable built like get_transform_fxn does
+Containers == {"sample", "array", "partial", "sample-dupname"}   \* partial: the callable built like get_transform_fxn does
+Unnamed == {"array", "sample-dupname"}     \* -dupname: a sample in which two columns carry one name (FCS allows it; a channel list
+                                          \* naming a channel twice makes one): columns are told apart by position only
 Perms == {<<1>>, <<2>>, <<3>>, <<1, 2>>, <<2, 1>>, <<1, 3>>, <<3, 1>>, <<2, 3>>, <<3, 2>>,
           <<1, 2, 3>>, <<1, 3, 2>>, <<2, 1, 3>>, <<2, 3, 1>>, <<3, 1, 2>>, <<3, 2, 1>>}
 ChF(t, cols, named) == [t |-> t, cols |-> cols, named |-> named]
@@ -24,10 +26,10 @@ Pick(n, S) == stage = n /\ \E x \in S : scn' = Append(scn, x) /\ stage' = n + 1 
 NSc == IF scn[2].t = "none" THEN C ELSE Len(scn[2].cols)
 Next ==
   \/ Pick(0, Containers)
-  \/ stage = 1 /\ \E f \in ScForms : (Named(f) => scn[1] # "array") /\ (scn[1] = "partial" => f.t = "list" /\ Named(f))
+  \/ stage = 1 /\ \E f \in ScForms : (Named(f) => scn[1] \notin Unnamed) /\ (scn[1] = "partial" => f.t = "list" /\ Named(f))
                                      /\ scn' = Append(scn, f) /\ stage' = 2 /\ UNCHANGED out
   \/ stage = 2 /\ \E d \in {-1, 0, 1} : NSc + d >= 1 /\ scn' = Append(scn, NSc + d) /\ stage' = 3 /\ UNCHANGED out   \* number of curves supplied
-  \/ stage = 3 /\ \E f \in ReqForms : (Named(f) => scn[1] # "array") /\ scn' = Append(scn, f) /\ stage' = 4 /\ UNCHANGED out
+  \/ stage = 3 /\ \E f \in ReqForms : (Named(f) => scn[1] \notin Unnamed) /\ scn' = Append(scn, f) /\ stage' = 4 /\ UNCHANGED out
   \/ /\ stage = 4
      /\ out' = ToMEF(scn[4], scn[3], IF scn[2].t = "none" THEN NoVal ELSE scn[2].cols, C)
      /\ stage' = 100 /\ UNCHANGED scn
